@@ -177,4 +177,4 @@ def report(run, ex, pkgdir, pkgname, harness_files, entry, res, keyfn=None, labe
             run.violation('%s: %s -- reproduced natively (go test -overlay) with draws %s' % (label or entry, msg, json.dumps(draws)[:400]),
                           {'harness': entry, 'package_dir': pkgdir, 'assertion': msg, 'draws': draws, 'harness_files': list(harness_files), 'native_output_tail': out[-1500:]}, key=key)
         else:
-            run.inconclusive.append('%s: counterexample for "%s" did not reproduce natively (failed=%s panic=%s): %s' % (entry, msg[:80], failed, panicked, out[-300:].replace('\n', ' | ')))
+            run.inconclusive.append('%s: counterexample for "%s" did not reproduce natively (failed=%s panic=%s draws=%s): %s' % (entry, msg[:80], failed, panicked, json.dumps(draws)[:300], out[-300:].replace('\n', ' | ')))
